@@ -551,7 +551,7 @@ def _simple_rule(name: str, category: str, conditions: str, extra: str = "") -> 
     return f"RULE {name} CATEGORY {category} {extra} CUTOFF 10 NEIGHBOURHOOD 5 CONDITIONS {conditions} "
 
 
-ILLFORMED_KINDS = ['unknown_profile', 'unknown_category', 'duplicate_rule', 'duplicate_alias', 'alias_named_profile', 'alias_named_rule', 'alias_named_category', 'repeated_and', 'repeated_or', 'repeated_group', 'repeated_minimum', 'repeated_superior', 'missing_category', 'missing_cutoff', 'missing_neighbourhood', 'missing_conditions', 'paren_removed', 'paren_added', 'only_negated', 'only_negated_and', 'only_negated_group', 'superior_undefined', 'superior_later', 'reserved_cluster', 'reserved_score', 'cds_single', 'generated_unknown_profile', 'generated_paren', 'generated_duplicate_rule', 'unknown_profile_in_cds', 'unknown_profile_in_minimum', 'unknown_profile_in_minscore', 'unknown_profile_in_extenders', 'unknown_profile_in_extenders_cds', 'empty_text', 'alias_without_value', 'not_at_end', 'trailing_operator', 'minimum_zero', 'unknown_profile_via_alias', 'unknown_profile_via_alias_group', 'unknown_profile_via_nested_alias', 'unknown_profile_via_alias_other_file', 'alias_uses_itself', 'alias_uses_itself_in_list', 'aliases_use_each_other', 'aliases_use_each_other_across_files']
+ILLFORMED_KINDS = ['unknown_profile', 'unknown_category', 'duplicate_rule', 'duplicate_alias', 'alias_named_profile', 'alias_named_rule', 'alias_named_category', 'repeated_and', 'repeated_or', 'repeated_group', 'repeated_minimum', 'repeated_superior', 'missing_category', 'missing_cutoff', 'missing_neighbourhood', 'missing_conditions', 'paren_removed', 'paren_added', 'only_negated', 'only_negated_and', 'only_negated_group', 'superior_undefined', 'superior_later', 'reserved_cluster', 'reserved_score', 'cds_single', 'generated_unknown_profile', 'generated_paren', 'generated_duplicate_rule', 'unknown_profile_in_cds', 'unknown_profile_in_minimum', 'unknown_profile_in_minscore', 'unknown_profile_in_extenders', 'unknown_profile_in_extenders_cds', 'empty_text', 'alias_without_value', 'not_at_end', 'trailing_operator', 'minimum_zero', 'unknown_profile_via_alias', 'unknown_profile_via_alias_group', 'unknown_profile_via_nested_alias', 'unknown_profile_via_alias_other_file', 'alias_uses_itself', 'alias_uses_itself_in_list', 'aliases_use_each_other', 'aliases_use_each_other_across_files', 'only_negated_with_extenders', 'repeated_minimum_reordered', 'repeated_minimum_reordered_via_alias', 'repeated_cds_reordered']
 
 
 @st.composite
@@ -643,6 +643,21 @@ def illformed_files(draw, kind: str) -> dict:
         files = [_simple_rule("second", category, f"not {a} and not {b}")]
     elif kind == "only_negated_group":
         files = [_simple_rule("second", category, f"not ({a} or {b})")]
+    elif kind == "only_negated_with_extenders":
+        body = draw(st.sampled_from([f"not {a}", f"not {a} and not {c}", f"not ({a} or {c})", f"not cds({a} and {c})",
+                                     f"not minimum(2, [{a}, {c}])", f"not minscore({a}, 20)"]))
+        extenders = draw(st.sampled_from([b, f"cds({b} and {c})", f"cds({b} or {a})"]))
+        files = [good + _simple_rule("second", category, body) + f" EXTENDERS {extenders}\n"]
+    elif kind == "repeated_minimum_reordered":
+        joiner = draw(st.sampled_from(["or", "and"]))
+        negate = draw(st.sampled_from(["", "", "not "]))
+        files = [_simple_rule("second", category,
+                              f"{c} {joiner} {negate}minimum(2, [{a}, {b}]) {joiner} {negate}minimum(2, [{b}, {a}])")]
+    elif kind == "repeated_minimum_reordered_via_alias":
+        files = [f"DEFINE twice AS minimum(2, [{b}, {a}])\n" + good,
+                 _simple_rule("second", category, f"minimum(2, [{a}, {b}]) or twice")]
+    elif kind == "repeated_cds_reordered":
+        files = [_simple_rule("second", category, f"cds({a} and {b}) or cds({a} and {b}) or {c}")]
     elif kind == "superior_undefined":
         files = [_simple_rule("second", category, a, "SUPERIORS nosuchrule")]
     elif kind == "superior_later":
